@@ -155,3 +155,24 @@ Definition allowed (tl : timeline) (m : meth) (t0 t1 : nat) : list (outcome nat)
       else []).
 Definition is_allowed (tl : timeline) (m : meth) (t0 t1 : nat) (o : outcome nat) : bool :=
   existsb (outcome_nat_eqb o) (allowed tl m t0 t1).
+
+(* ------------------------------------------------------------------ 4. copies of a Process object *)
+(* Block transparency for copies: an object answers from the kernel as it is now, unless it or an object
+   that refers to the same platform object is inside a block -- then it may answer with what the source held
+   at some moment since the earliest such block was entered.  (Which copies exist and what they share is the
+   tree's business; an answer older than every open block is never allowed.) *)
+Definition mates_lo (ms : msq) (ob : mobj) : nat :=
+  fold_left (fun lo x => match x with
+                         | Some y => if Nat.eqb (o_plat y) (o_plat ob)
+                                     then match o_start y with Some s => Nat.min lo s | None => lo end else lo
+                         | None => lo
+                         end) (m_objs ms) (m_time ms).
+Definition copy_allowed (ms : msq) (o : nat) (m : meth) : list (outcome nat) :=
+  match nth_error (m_objs ms) o with
+  | Some (Some ob) =>
+      let w := srcs (m_sh ms) :: firstn (m_time ms - mates_lo ms ob) (m_tl ms) in
+      map (fun f => out_of (f (m_src m))) w
+      ++ (if meth_eqb m Mmemory_full
+          then flat_map (fun f => match f Statm with SAvail _ => [] | st => [out_of st] end) w else [])
+  | _ => []
+  end.
